@@ -189,20 +189,22 @@ pub fn native_minmax<T, const LESS: bool>(
                     vm.stack_push(*first.0)?;
                     let mut max_key = vm.run_function(key_fn)?;
                     scratch.as_table_mut().unwrap().insert(0, max_key)?;
-                    let mut i = 0;
+                    // the best row so far, as stored in the private copy (which keeps it alive). It
+                    // is not looked up again at the end: the key function may have changed a table
+                    // that serves as the row's key, and no lookup would find the row then
+                    let (mut k, mut v) = (*first.0, *first.1);
 
-                    for (j, (k, value)) in t.iter().enumerate().skip(1) {
+                    for (row_key, value) in t.iter().skip(1) {
                         vm.stack_push(*value)?;
-                        vm.stack_push(*k)?;
+                        vm.stack_push(*row_key)?;
                         let key = vm.run_function(key_fn)?;
                         if if LESS { key < max_key } else { key > max_key } {
-                            i = j;
+                            k = *row_key;
+                            v = *value;
                             max_key = key;
                             scratch.as_table_mut().unwrap().insert(0, max_key)?;
                         }
                     }
-                    let k = t.nth_key(i);
-                    let v = *t.get(&k).unwrap();
                     let mut result = vm.init_table()?;
                     let t = result.0.as_mut().as_table_mut().unwrap();
                     t.insert(vm.init_string("key")?, k)?;
